@@ -148,6 +148,9 @@ func cmdCSem(c *ctx) {
 		if hasPackOperand(m) {
 			tag += " packop"
 		}
+		if hasOpInit(m) {
+			tag += " opinit"
+		}
 		c.line("tags.txt", knob+" "+tag)
 		if c.stats["shrunk"] < 10 {
 			if d == nil {
